@@ -765,6 +765,8 @@ func main() {
 		os.Exit(replay(os.Args[2]))
 	case "manifest":
 		os.Exit(writeManifest())
+	case "selftest":
+		os.Exit(selftest())
 	case "list":
 		ids := make([]string, 0, len(checks))
 		for id := range checks {
@@ -849,5 +851,25 @@ func writeManifest() int {
 		return 2
 	}
 	fmt.Printf("MANIFEST.json written: %d checks, %d not applicable\n", len(list), len(na2))
+	return 0
+}
+
+// selftest runs the generated self-tests of the trusted base (vfs vs the kernel, nfsx framing).
+func selftest() int {
+	defer doCleanup()
+	bin, err := buildVariant("plain")
+	if err != nil {
+		fmt.Println(err)
+		return 2
+	}
+	cmd := exec.Command(bin, "-test.run", "^TestSelf", "-rapid.checks=2000", "-rapid.nofailfile", "-test.timeout", "10m")
+	cmd.Dir = filepath.Join(harness(), "checks")
+	cmd.Env = append(goEnv(), "VERIF_DEBUG=1")
+	out, err := cmd.CombinedOutput()
+	if err != nil {
+		fmt.Printf("%s\nINCONCLUSIVE: trusted-base self-test failed\n", out)
+		return 2
+	}
+	fmt.Println("selftest ok: vfs agrees with the kernel, nfsx framing is its own inverse")
 	return 0
 }
